@@ -186,7 +186,8 @@ CHECKS["C03"] = dict(
         "lines, and an independent Python reading of each input judges both. Everything outside those models (ELF/LKCD/SADUMP header parsing, attributes, caches, "
         "decompressors) is covered by the `hostile` stream only: 38 generated bases of every format x 1054-field tables x {0,1,max,sign boundaries,+-1,*2}, "
         "truncations at every structure boundary, sampled double corruptions, mismatched file sets and a coverage-guided mutation loop, every input in a forked "
-        "child under ASan+UBSan with a wall-clock bound, script = open, attribute enumeration, page maps, 40 reads, strings; each status must be documented.",
+        "child under ASan+UBSan with a wall-clock bound, script = open, attribute enumeration, page maps, 40 reads, strings; each status must be documented."
+        "A regression corpus of minimised past failures (corpus/c03_regress.json: inputs the thorough tier's evolving stream found) runs first in every tier.",
    note=TB + "Hostile-input survival is evidence, not proof; time bound is a 4 s wall clock per input under sanitizers, not a complexity proof. Findings "
         "misaligned-load-of-file-data and elf-vmci-deepkey:timeout are recorded in KNOWN_FINDINGS. Behaviour behind EOF is a model parameter (both zero-fill "
         "and failure are covered by the flat-scan theorems).",
